@@ -129,8 +129,8 @@ func runC04(w *World) {
 			}
 			continue
 		}
-		nest := p.Plug.NEst
-		if !w.WaitUntil("c04.est", time.Minute, func() bool { return p.Plug.NEst > nest || c.LocalClosed() }) || c.LocalClosed() {
+		nsess0 := len(p.Plug.Sessions)
+		if !w.WaitUntil("c04.est", time.Minute, func() bool { return len(p.Plug.Sessions) > nsess0 || c.LocalClosed() }) || c.LocalClosed() {
 			w.Probe("not-established")
 			c.FIN()
 			continue
@@ -167,7 +167,9 @@ func runC04(w *World) {
 				case "rst":
 					c.RST()
 				case "handler-notification":
-					handlerNotifSession = p.Plug.Sessions[len(p.Plug.Sessions)-1].N
+					if n := len(p.Plug.Sessions); n > 0 {
+						handlerNotifSession = p.Plug.Sessions[n-1].N
+					}
 					c.Deliver(MkFrame(MsgUpdate, []byte{9, 9, 9, 9}))
 					w.WaitUntil("c04.hnotif", 10*time.Second, c.LocalClosed)
 					c.FIN()
